@@ -228,9 +228,28 @@ var subsetArgs = func() map[int]bool {
 func run(r *core.Run) {
 	rn := &runner{r: r, envs: make([]*env, r.Workers), bounds: map[string]interface{}{}}
 	debug.SetGCPercent(400) // the oracle allocates many short-lived big integers
+	for i := range rn.envs {
+		rn.envs[i] = newEnv()
+	}
 	r.Assume("the reference model verif/ref/nummodel12 (math/big integer arithmetic; validated by its own go test against strconv and big.Rat on structured domains) is the trusted base")
 	r.Assume("binary32 / 2^64 domains are not enumerated completely: exhaustive over D1, D2, D4 and the completed part of D3 only (see bounds_completed)")
 	r.Assume("negative values: sign handling is enumerated on D1 (all negative binary16 values); D2, D3, D4 are enumerated for positive values because ftoa strips the sign before generating digits")
+	// last resort against a conversion of a normal number that never returns (native code cannot be interrupted;
+	// subnormals are isolated in a child process, see child.go): report it and give up the whole run
+	go func() {
+		for {
+			time.Sleep(5 * time.Second)
+			for _, e := range rn.envs {
+				if e == nil {
+					continue
+				}
+				if t := e.busySince.Load(); t != 0 && time.Since(time.Unix(0, t)) > 5*time.Minute {
+					fmt.Printf("VIOLATION property=C12 replay= signature=%q count=1 what=%q\n", "hang|in-process", fmt.Sprintf("a conversion of the double with bits %016x has not returned for 5 minutes", e.busyX.Load()))
+					os.Exit(1)
+				}
+			}
+		}
+	}()
 	complete := true
 	if pf := os.Getenv("VERIF_C12_PROF"); pf != "" { // development aid
 		if f, err := os.Create(pf); err == nil {
